@@ -119,7 +119,8 @@ theorem sweep_decodes (fuel pc : Nat) (bs : List Nat) (items : List Ann) (subs :
         have hrest := decode_drop _ _ _ _ hd
         have hlen := decode_len _ _ _ _ hd
         split at h
-        · split at h
+        · rename_i z need hsk
+          split at h
           · split at h
             · rename_i items' subs' hrec
               simp at h
@@ -131,7 +132,7 @@ theorem sweep_decodes (fuel pc : Nat) (bs : List Nat) (items : List Ann) (subs :
               · obtain ⟨hge, r', hdec⟩ := ih _ _ _ _ hrec a ha
                 refine ⟨by omega, r', ?_⟩
                 rw [hrest, List.drop_drop, List.drop_drop] at hdec
-                have : size + (argAt i 5 + (a.pc - (pc + size + argAt i 5))) = a.pc - pc := by omega
+                have : size + (z + (a.pc - (pc + size + z))) = a.pc - pc := by omega
                 rw [← this]
                 exact hdec
             · simp at h
